@@ -23,6 +23,9 @@ type aloneCall struct {
 	N   int    `json:"n"`
 	Ret int    `json:"ret"`
 	Err string `json:"err"`
+	// Copy: the bytes are handed over with io.Copy from a source that reports io.EOF with its
+	// last bytes instead of with one Write call (not part of the TLC-generated contract cases)
+	Copy bool `json:"copy,omitempty"`
 }
 
 type aloneCase struct {
@@ -107,7 +110,7 @@ func runAlone(g AloneCfg, calls []aloneCall, data []byte) AloneRun {
 		p := data[off : off+cl.N]
 		var n int
 		var e error
-		res.Panic = safely(func() { n, e = w.Write(p) })
+		res.Panic = safely(func() { n, e = writeVia(w, p, cl.Copy) })
 		if res.Panic != nil {
 			return res
 		}
@@ -149,6 +152,12 @@ func judgeAlone(c *hx.Ctx, prop string, g AloneCfg, pred *aloneCase, run AloneRu
 				c.Violation(sig("contract", "op", pc.Op, "want", pc.Err, "got", oc.Err), fmt.Sprintf("call %d %s(%d): got (%d,%s), contract says (%d,%s)", i, pc.Op, pc.N, oc.Ret, oc.Err, pc.Ret, pc.Err), replay)
 				return
 			}
+		}
+	}
+	for i, oc := range run.Calls {
+		if oc.Op == "W" && oc.Err == "nil" && oc.Ret != oc.N {
+			c.Violation(sig("bytes-dropped", "op", "W"), fmt.Sprintf("call %d: %d bytes were handed to the writer, it reports %d accepted and no error", i, oc.N, oc.Ret), replay)
+			return
 		}
 	}
 	h, herr := ref.ParseAloneHeader(run.Sink)
@@ -333,7 +342,7 @@ func C06(c *hx.Ctx) {
 		if len(data) > 0 {
 			cut = (i * 37) % (len(data) + 1)
 		}
-		calls := []aloneCall{{Op: "W", N: cut}, {Op: "W", N: len(data) - cut}, {Op: "C"}}
+		calls := []aloneCall{{Op: "W", N: cut, Copy: i%3 == 0}, {Op: "W", N: len(data) - cut, Copy: i%3 == 1}, {Op: "C"}}
 		run := runAlone(g, calls, data)
 		var local bytes.Buffer
 		judgeAlone(c, "C06", g, nil, run, &local, map[string]any{"cfg": g, "class": x.class, "n": len(data), "seed": c.Seed + int64(i)})
